@@ -187,6 +187,29 @@ def operator_pairs(mb: ModelBuilder, op1: str, ops: Iterable[str]) -> list[tuple
     return out
 
 
+def polarity_trees(mb: ModelBuilder, op: str, negation: bool = True) -> list[tuple[str, AObj]]:
+    """A binary operator over two plain features with every combination of polarities of its operands, and the
+    negation of each: the shapes that the library classifies as 'simple' constraints (requires / excludes written with
+    or / and / not) and that a writer with a shortcut for simple constraints treats differently from all others."""
+    n, o = mb.node, mb.op
+    out = []
+    for la, ln in (("A", False), ("notA", True)):
+        for ra, rn in (("B", False), ("notB", True)):
+            if (ln or rn) and not negation:
+                continue
+            left = n(o("NOT"), n("A")) if ln else n("A")
+            right = n(o("NOT"), n("B")) if rn else n("B")
+            out.append((f"{op}_{la}_{ra}", n(o(op), left, right)))
+            if negation:
+                left = n(o("NOT"), n("A")) if ln else n("A")
+                right = n(o("NOT"), n("B")) if rn else n("B")
+                out.append((f"not_{op}_{la}_{ra}", n(o("NOT"), n(o(op), left, right))))
+    # the same operand on both sides, and the operands the other way round
+    out.append((f"{op}_B_A", n(o(op), n("B"), n("A"))))
+    out.append((f"{op}_A_A", n(o(op), n("A"), n("A"))))
+    return out
+
+
 def stress_trees(mb: ModelBuilder) -> list[tuple[str, AObj]]:
     """Constraint shapes that stress normal-form conversions: disjunctions of conjunctions with a
     feature in both polarities (tautological clauses after distribution), xor written with and/or/not,
@@ -519,6 +542,161 @@ class Codec:
             m = model_of([a, b]) if model_of else kind_model(mb, [a, b])
             self.report(rule, f"kind-pair:{kind(a)}:{a}+{kind(b)}:{b}", self.roundtrip(m),
                         f"relations {a} and {b} under one parent", ("relation", "parent", "name"))
+
+    def polarity(self, mb: ModelBuilder, ops: Iterable[str], rule: str = "VOC", negation: bool = True,
+                 model_of: Optional[Callable[[list[tuple[str, AObj]]], AObj]] = None) -> None:
+        """Every binary operator over two plain features with each combination of operand polarities (and negated)."""
+        for op in ops:
+            trees = polarity_trees(mb, op, negation)
+            m = model_of(trees) if model_of else ctc_model(mb, trees)
+            self.report(rule, f"polarities:{op}", self.roundtrip(m),
+                        f"{op} over A / !A and B / !B, plain and negated, and with the operands exchanged",
+                        ("constraint", "constraint-count"))
+
+    def reuse_base(self, mb: ModelBuilder, op: str = "IMPLIES", rename: Optional[Callable[[str], str]] = None,
+                   abstract: bool = True) -> tuple[AObj, Callable[[AObj], None]]:
+        """A small model of every format's fragment and an in-place edit of it through the model's own lists."""
+        rn = rename or (lambda x: x)
+        root = mb.feature(rn("Root"))
+        a, b, c = mb.feature(rn("Aa")), mb.feature(rn("Bb")), mb.feature(rn("Cc"))
+        mb.relation(root, [a], 0, 1)
+        mb.relation(root, [b], 1, 1)
+        mb.relation(root, [c], 0, 1)
+        mb.relation(a, [mb.feature(rn("Ga")), mb.feature(rn("Gb"))], 1, 1)
+        m = mb.model(root, [mb.constraint("c0", mb.node(mb.op(op), mb.node(rn("Aa")), mb.node(rn("Cc"))))])
+
+        def edit(model: AObj) -> None:
+            r_ = model._f["root"]
+            added = mb.feature(rn("Added"))
+            mb.relation(r_, [added], 0, 1)                                   # a new optional child of the root
+            mb.relation(added, [mb.feature(rn("Deep"))], 1, 1)
+            model._f["ctcs"].append(mb.constraint("c1", mb.node(mb.op(op), mb.node(rn("Added")), mb.node(rn("Bb")))))
+            try:
+                model._f["ctcs"][0]._f["_ast"]._f["root"]._f["right"] = mb.node(rn("Bb"))   # the first constraint edited
+            except (KeyError, AttributeError, IndexError, TypeError):
+                pass                                       # (the classes keep the tree elsewhere: the other edits remain)
+            if abstract:
+                for rel in r_._f["relations"]:
+                    for ch in rel._f["children"]:
+                        if ch._f.get("name") == rn("Cc"):
+                            ch._f["is_abstract"] = True
+        return m, edit
+
+    def writer_reuse(self, mb: ModelBuilder, rule: str = "REUSE", **kw: Any) -> None:
+        """One writer object used for a model, the model then edited in place through its own API, and the same writer
+        used again (and, separately, pointed at another model): what it writes must be what a fresh writer writes for
+        the model as it is now - a writer that keeps the document it built the first time writes a stale one."""
+        from .absint import reset_global_state
+        ctx, pm = self.ctx, self.pm
+        ci = pm.cls(self.W)
+        tr = pm.method(ci, "transform")
+        for variant in ("edit-in-place", "other-model"):
+            key = f"same-writer-object:{variant}"
+            reset_global_state()
+            model, edit = self.reuse_base(mb, **kw)
+            vfs = VFS()
+            it = new_interp(pm, vfs)
+            if self.wsetup:
+                self.wsetup(it, vfs)
+            try:
+                w = it.eval_call_class(ci, [PATH, model])
+                it.call(tr, [w])
+                first = vfs.files.get(PATH)
+                if variant == "edit-in-place":
+                    edit(model)
+                    target = model
+                else:
+                    target, edit2 = self.reuse_base(mb, **kw)
+                    edit2(target)
+                    holders = [k_ for k_, v_ in w._f.items() if v_ is model]   # the field(s) the constructor put the model in
+                    if not holders:
+                        ctx.info(f"{self.prefix}-{rule}", key, self.wwhere, "the writer object does not hold its model in a field")
+                        continue
+                    try:
+                        for k_ in holders:
+                            it.setattr_obj(w, k_, target)
+                    except (AbsRaise, AbsMutation, AnalysisError):
+                        ctx.info(f"{self.prefix}-{rule}", key, self.wwhere, "the writer does not let its model be replaced")
+                        continue
+                returned = it.call(tr, [w])
+                second = vfs.files.get(PATH)
+            except (AbsRaise, AbsMutation) as exc:
+                ctx.info(f"{self.prefix}-{rule}", key, self.wwhere, f"a writer object used twice raises {exc.what}")
+                continue
+            reset_global_state()
+            fresh = run_writer(pm, self.W, target, setup=self.wsetup)
+            if fresh["raise"]:
+                continue
+            ctx.check(second == fresh["written"] and same_content(returned, second), f"{self.prefix}-{rule}", key,
+                      self.wwhere, "a writer object used again after the model changed writes the model as it is now",
+                      bad=f"{self.W}: the second transform() of one writer object ({variant}) writes "
+                          f"{'the document of the first call' if second == first else 'another document'} instead of the "
+                          f"one a fresh writer produces for the model as it is now")
+        reset_global_state()
+
+    def reader_reuse(self, mb: ModelBuilder, rule: str = "REUSE", **kw: Any) -> None:
+        """Histories of reading: (1) a document is read, the caller edits the model it got, and the same document is
+        read again by a new reader object: the second model is the document's, not the caller's edited one (a parse
+        cache that hands out its own entry); (2) the file is replaced by another document and read again - by a new
+        reader and by the first reader object: the model is the one of the document that is there now (a reader that
+        answers silently with the earlier model is wrong; one that declines with an error is reported as information)."""
+        from .absint import reset_global_state
+        from .roundtrip import describe, diff
+        ctx, pm = self.ctx, self.pm
+        reset_global_state()
+        m_a, edit = self.reuse_base(mb, **kw)
+        m_b, edit_b = self.reuse_base(mb, **kw)
+        edit_b(m_b)
+        wa, wb = run_writer(pm, self.W, m_a, setup=self.wsetup), run_writer(pm, self.W, m_b, setup=self.wsetup)
+        if wa["raise"] or wb["raise"] or wa["written"] is None or wb["written"] is None:
+            return
+        reset_global_state()
+        ci = pm.cls(self.R)
+        tr = pm.method(ci, "transform")
+        vfs = VFS()
+        vfs.put(PATH, wa["written"])
+        it = new_interp(pm, vfs)
+        if self.rsetup:
+            self.rsetup(it, vfs)
+        P = f"{self.prefix}-{rule}"
+        try:
+            r1 = it.eval_call_class(ci, [PATH])
+            got1 = it.call(tr, [r1])
+            d0 = diff(describe(m_a), describe(got1), **self.diff_opts)
+            if d0:
+                return                                     # the plain round trip is reported elsewhere
+            edit(got1)                                     # the caller works on the model it was given
+            r2 = it.eval_call_class(ci, [PATH])
+            got2 = it.call(tr, [r2])
+            d1 = diff(describe(m_a), describe(got2), **self.diff_opts)
+            ctx.check(not d1 and got2 is not got1, P, "read-edit-read", self.rwhere,
+                      "a document read again after the caller edited the first result denotes the same model as before",
+                      bad=f"{self.R}: reading an unchanged file again after the caller edited the model of the first reading "
+                          f"gives {'the very object handed out before' if got2 is got1 else 'another model'}: "
+                          f"{d1[0][1] if d1 else 'the edited model'}")
+            vfs.put(PATH, wb["written"])                    # another program replaces the file
+            r3 = it.eval_call_class(ci, [PATH])
+            got3 = it.call(tr, [r3])
+            d2 = diff(describe(m_b), describe(got3), **self.diff_opts)
+            ctx.check(not d2, P, "replaced-file:new-reader", self.rwhere,
+                      "a file replaced by another document is read as that document",
+                      bad=f"{self.R}: after the file was replaced the model read is not the new document's: "
+                          f"{d2[0][1] if d2 else ''}")
+        except (AbsRaise, AbsMutation) as exc:
+            ctx.violation(P, "read-edit-read", self.rwhere, f"{self.R}: reading a document a second time raises {exc.what}")
+            reset_global_state()
+            return
+        try:
+            got4 = it.call(tr, [r1])                        # the first reader object, asked again
+            d3 = diff(describe(m_b), describe(got4), **self.diff_opts)
+            ctx.check(not d3, P, "replaced-file:same-reader-object", self.rwhere,
+                      "the first reader object, asked again after the file was replaced, returns the new document's model",
+                      bad=f"{self.R}: the reader object used before answers with a model that is not the one of the document "
+                          f"now in the file: {d3[0][1] if d3 else ''}")
+        except (AbsRaise, AbsMutation) as exc:
+            ctx.info(P, "replaced-file:same-reader-object", self.rwhere,
+                     f"{self.R}: a reader object asked to transform() a second time declines: {exc.what}")
+        reset_global_state()
 
     def large(self, mb: ModelBuilder, ops: Iterable[str], rule: str = "LARGE", **kw: Any) -> None:
         for key, m, what, owns in large_models(mb, ops, **kw):
